@@ -3,7 +3,7 @@
    (full object tree: class skeleton WITH the stored scalars/vectors, domain, range, is_linear)
    or the error class it raised, and values at some points (out-of-place and in-place). *)
 From Coq Require Import ZArith QArith List Bool.
-From Verif Require Import Base.Num Base.Vec Base.Check C04.Model.
+From Verif Require Import Base.Num Base.Vec Base.Check C04.Model C04.Cplx.
 Import ListNotations.
 
 Section Corr.
@@ -89,3 +89,16 @@ Definition qFLin := @FLin Q _.
 Definition qFQuad := @FQuad Q _.
 Definition qFL1 := @FL1 Q _.
 Definition qNQuad := @NQuad Q _.
+
+(* ---- complex spaces: carrier Q*Q (Gaussian rationals) ---- *)
+Definition ccl (impl model : QC) : bool :=
+  Qclose tol tol (fst impl) (fst model) && Qclose tol tol (snd impl) (snd model).
+Definition check_cplx (k : case QC) : bool := check ccl k.
+Definition cMat := @LMat QC _.
+Definition cAff := @LAff QC _.
+Definition cSq := @LSq QC _.
+Definition cCube := @LCube QC _.
+Definition cIP := @LIP QC _.
+Definition cFLin := @FLin QC _.
+Definition cFQuad := @FQuad QC _.
+Definition cNQuad := @NQuad QC _.
